@@ -35,7 +35,7 @@
          to zero-length atoms, sensitive to a moved point; GridCoord is the nearest integer                                                      *)
 EXTENDS GlyfSem, TLC, Json
 CONSTANTS NP, C, DSEL
-DSET == IF DSEL = 1 THEN {-1, 2} ELSE {-1, 0, 1}     \* (TLC configuration files cannot write negative numbers)
+DSET == IF DSEL = 2 THEN {-1, 0, 1} ELSE {-1, 2}     \* (TLC configuration files cannot write negative numbers)
 VARIABLES u, phase
 vars == <<u, phase>>
 
